@@ -1132,6 +1132,14 @@ def cases(check, tier, seed, shard, nshards):
             yield {'kind': 'int-invalid'}
         if shard == 1 % nshards:
             yield {'kind': 'defaults', 'family': 'int'}
+        # core ranges: every variant, extensible and not, whatever the shuffle below assigns (single-value ranges,
+        # ranges whose digits concatenate to the same string in one process, the documented examples)
+        CORE = [(0, 0), (1, 1), (7, 7), (10, 10), (99, 99), (120, 120), (1, 120), (11, 20), (1, 234), (12, 34), (5, 678), (56, 78), (11, 20), (1, 120),
+                (3, 10), (50, 1000), (5, 120), (0, 255)]
+        for j, (a, b) in enumerate(CORE):
+            for k, variant in enumerate(INT_VARIANTS):
+                if (j * len(INT_VARIANTS) + k) % nshards == shard or (a, b) in ((1, 120), (11, 20), (1, 234), (12, 34), (5, 678), (56, 78)) and shard == 5 % nshards:
+                    yield {'kind': 'int', 'a': a, 'b': b, 'variant': variant, 'seed': rnd.randrange(1 << 30), 'ext': True}
         ranges = boundary_ranges(random.Random(seed * 7 + 15), 640 if not big else 48000)
         for i, (a, b) in enumerate(ranges):
             if i % nshards != shard:
